@@ -149,6 +149,8 @@ impl<Effect, Event> Command<Effect, Event> {
     pub(crate) fn run_until_settled(&mut self) {
         if self.was_aborted() {
             self.tasks.clear();
+            // tasks spawned but never started are cancelled as well
+            while self.spawn_queue.try_recv().is_ok() {}
 
             return;
         }
